@@ -143,8 +143,12 @@ func init() {
 			reps = 3
 		}
 		start := int(*f.seed) % stride
-		for fi := start; fi < len(db.rows); fi += stride {
+		for fi := 0; fi < len(db.rows); fi++ {
 			row := &db.rows[fi]
+			// every self-cancelling form is always included (regression for F2); the rest by stride
+			if fi%stride != start && row.Features&featCancelling == 0 {
+				continue
+			}
 			for rep := 0; rep < reps; rep++ {
 				g := newFgen(r.fork(), db, genCfg{nGP: 4, nVec: 4, nK: 3, physPct: 40})
 				g.labels = []string{"l"}
